@@ -773,3 +773,30 @@ def scan_assumptions(text):
         if n:
             res[p] = n
     return res
+
+def named_assumptions(text, contract_only_names=()):
+    """names of everything that is assumed rather than proved in an assembled unit: external_body functions (minus
+    the contract-only restatements of functions proved in another unit), assume_specifications, axioms,
+    uninterpreted spec functions, external types"""
+    out = {"assumed_fns": [], "assume_specification": [], "axioms": [], "uninterpreted": [], "external_types": []}
+    lines = text.split("\n")
+    for i, l in enumerate(lines):
+        if "external_body" in l and "external_type" not in l:
+            # the item this attribute decorates: same line or one of the next few lines
+            for j in range(i, min(i + 6, len(lines))):
+                m = re.search(r"\b(fn|struct)\s+(\w+)", lines[j])
+                if m:
+                    (out["assumed_fns"] if m.group(1) == "fn" else out["external_types"]).append(m.group(2))
+                    break
+        m = re.search(r"assume_specification(?:<[^>]*>)?\s*\[\s*([^\]]+?)\s*\]", l)
+        if m: out["assume_specification"].append(" ".join(m.group(1).split()))
+        m = re.search(r"\baxiom\s+fn\s+(\w+)", l)
+        if m: out["axioms"].append(m.group(1))
+        m = re.search(r"\buninterp\s+spec\s+fn\s+(\w+)", l)
+        if m: out["uninterpreted"].append(m.group(1))
+    co = set(contract_only_names)
+    out["proved_in_another_unit"] = sorted(set(n for n in out["assumed_fns"] if n in co))
+    out["assumed_fns"] = sorted(set(n for n in out["assumed_fns"] if n not in co))
+    for k in ("assume_specification", "axioms", "uninterpreted", "external_types"):
+        out[k] = sorted(set(out[k]))
+    return out
